@@ -71,6 +71,11 @@ func genHTTPRequest(t *rapid.T, i int) []byte {
 			}
 		}
 	}
+	if len(body) > 0 && chunks == nil && rapid.IntRange(0, 3).Draw(t, "expect") == 0 {
+		// the client announces its body and (nominally) waits for "100 Continue"; here the body follows regardless, at
+		// whatever read boundary the case generates
+		hdr = append(hdr, [2]string{"Expect", "100-continue"})
+	}
 	return mesh.BuildH1Request(method, target, hdr, body, chunks, method == "POST" || method == "PUT")
 }
 
@@ -115,6 +120,25 @@ func genStream() *rapid.Generator[hold[stream]] {
 		total := off
 		s.Mode = rapid.SampledFrom([]string{"one-byte", "inside-frames", "random", "frames-per-write", "header-split"}).Draw(t, "cutMode")
 		cutSet := map[int]bool{}
+		// a request with Expect: 100-continue: its head alone in one read (the proxy answers "100 Continue" and goes on to
+		// read the body), then the body TOGETHER with whatever follows it in the next read
+		expectHead := -1
+		if s.Proto == "Http1" || s.Proto == "Auto" {
+			start := 0
+			for i, f := range s.Frames {
+				if k := bytes.Index(f, []byte("\r\n\r\n")); k > 0 && bytes.Contains(f[:k], []byte("Expect: 100-continue")) && expectHead < 0 {
+					expectHead = start + k + 4
+				}
+				start = s.Bounds[i]
+			}
+		}
+		if expectHead > 0 && expectHead < total && rapid.Bool().Draw(t, "expectSplit") {
+			s.Mode = "expect-head-then-body-with-followers"
+			cutSet[expectHead] = true
+			if rapid.Bool().Draw(t, "alsoInsideFollower") && total-expectHead >= 3 {
+				cutSet[rapid.IntRange(expectHead+1, total-1).Draw(t, "cutLater")] = true
+			}
+		}
 		switch s.Mode {
 		case "one-byte":
 			lim := total
@@ -174,7 +198,9 @@ func genStream() *rapid.Generator[hold[stream]] {
 		sort.Ints(s.Cuts)
 		for i := range s.Cuts {
 			g := 0
-			if s.Mode != "one-byte" {
+			if s.Mode == "expect-head-then-body-with-followers" {
+				g = 5 // the proxy has taken the head and waits for the body
+			} else if s.Mode != "one-byte" {
 				g = rapid.SampledFrom([]int{0, 0, 0, 1, 2}).Draw(t, "gapMs")
 			} else if i < 10 {
 				g = 1 // the first bytes really arrive one per read (protocol detection sees every growing prefix)
@@ -295,8 +321,12 @@ func e2eDeliver(rt *rapid.T, s *stream, chunked bool) (log []string, problem str
 			br := bufio.NewReader(c)
 			for n < len(s.Frames) {
 				_ = c.SetReadDeadline(time.Now().Add(waitDeadline))
-				if _, err := mesh.ReadH1Response(br, "GET"); err != nil {
+				m, err := mesh.ReadH1Response(br, "GET")
+				if err != nil {
 					break
+				}
+				if m.Status == 100 {
+					continue // the interim answer to Expect: 100-continue
 				}
 				n++
 			}
